@@ -24,7 +24,7 @@ Every function takes the switch `fx : Bool`:
 namespace TV.Tui
 
 /-- Is the patch `/verif/tmp_patches/tui_selection.diff` applied to /repo? -/
-def codeIsFixed : Bool := false
+def codeIsFixed : Bool := true
 
 /-! ## Data shape -/
 
